@@ -208,7 +208,7 @@ func (g *G) reuse(t grl.Type, exact bool) *grl.Expr {
 
 var smallInts = []int64{0, 1, 2, 3, 5, 7, 10, 12}
 var smallFloats = []float64{0.25, 0.5, 1.5, 2.0, 2.75, 4.0, 10.5}
-var smallStrs = []string{"", "a", "ab", "abc", "k1", "k2", "Tag", "x y"}
+var smallStrs = []string{"", "a", "ab", "abc", "k1", "k2", "Tag", "x y", "a\"b", "c\\d", "é☃", "[x]", "'q'", "tab\there"}
 
 // Expr generates a well-typed expression of type t. exact demands the exact Go type a method
 // parameter of that family needs (int64 / float64 / string / bool).
@@ -221,6 +221,9 @@ func (g *G) Expr(t grl.Type, depth int, exact bool) *grl.Expr {
 	case grl.TInt:
 		if leaf {
 			if g.R.Chance(35, 100) {
+				if g.R.Chance(1, 8) {
+					return lit(0 - g.R.PickInt64(1, 2, 7, 1000)) // negative literal
+				}
 				return lit(g.R.PickInt64(smallInts...))
 			}
 			pi := g.pickPath(grl.TInt, exact, false)
@@ -256,6 +259,9 @@ func (g *G) Expr(t grl.Type, depth int, exact bool) *grl.Expr {
 	case grl.TFloat:
 		if leaf {
 			if g.R.Chance(35, 100) {
+				if g.R.Chance(1, 8) {
+					return grl.LitFloat(0 - smallFloats[g.R.Intn(len(smallFloats))])
+				}
 				return grl.LitFloat(smallFloats[g.R.Intn(len(smallFloats))])
 			}
 			pi := g.pickPath(grl.TFloat, exact, false)
